@@ -217,3 +217,76 @@ func EntityEditCorpus() []struct {
 				Coq: "XEnt 0 0 (XKey " + e.keyCoq(k2) + ")"}}},
 	}
 }
+
+// ---- a message appended to a publish topic (outside J5sEdit.edit: the pair is compared as printed)
+
+type TopicMsgRec struct {
+	Kind   string `json:"kind"` // topicmsg
+	Target string `json:"target"`
+	What   string `json:"what"`
+	// Single: the topic had exactly one message (with a name of its own) before the append
+	Single bool `json:"single_message_before"`
+}
+
+// AppendTopicMessage appends a named message to a publish topic of pkg all of whose messages carry
+// names of their own (a message without a name is named after the topic and cannot get a sibling
+// by an append), preferring topics with exactly one message. nil when the package has no such topic.
+func AppendTopicMessage(r *vh.Rand, b *Bundle, pkg string) *TopicMsgRec {
+	type site struct {
+		f *File
+		t *Topic
+	}
+	var single, multi []site
+	for _, f := range b.Files {
+		if f.Package() != pkg {
+			continue
+		}
+		for _, el := range f.Elements {
+			if el.Kind != "topic" || el.Topic.Kind != "publish" || len(el.Topic.Msgs) == 0 {
+				continue
+			}
+			named := true
+			for _, m := range el.Topic.Msgs {
+				named = named && m.Name != nil && *m.Name != el.Topic.Name
+			}
+			if !named {
+				continue
+			}
+			if len(el.Topic.Msgs) == 1 {
+				single = append(single, site{f, el.Topic})
+			} else {
+				multi = append(multi, site{f, el.Topic})
+			}
+		}
+	}
+	cands := single
+	if len(cands) == 0 || (len(multi) > 0 && r.Chance(25)) {
+		cands = multi
+	}
+	if len(cands) == 0 {
+		return nil
+	}
+	s := cands[r.Intn(len(cands))]
+	name := "Extra" + vh.Pick(r, extraWords) + vh.Pick(r, extraWords)
+	m := &Tmsg{Name: &name}
+	if r.Chance(70) {
+		m.Fields = []*Property{prop("extraField", str("string"))}
+	}
+	rec := &TopicMsgRec{Kind: "topicmsg", Target: fmt.Sprintf("%s: topic %s", s.f.Path(), s.t.Name), What: "message " + name, Single: len(s.t.Msgs) == 1}
+	s.t.Msgs = append(s.t.Msgs, m)
+	return rec
+}
+
+// TopicMsgCorpus: `topic Orders publish { message OrderPlaced {...} }` + `message OrderShipped {...}`.
+func TopicMsgCorpus() (before, after *Bundle, pkg string, rec *TopicMsgRec) {
+	mk := func(names ...string) *Bundle {
+		t := &Topic{Kind: "publish", Name: "Orders"}
+		for _, n := range names {
+			n := n
+			t.Msgs = append(t.Msgs, &Tmsg{Name: &n, Fields: []*Property{prop("orderId", str("string"))}})
+		}
+		return &Bundle{Files: []*File{file([]string{"foo", "v1"}, "a", &Element{Kind: "topic", Topic: t})}}
+	}
+	return mk("OrderPlaced"), mk("OrderPlaced", "OrderShipped"), "foo.v1",
+		&TopicMsgRec{Kind: "topicmsg", Target: "foo/v1/a.j5s: topic Orders", What: "message OrderShipped", Single: true}
+}
